@@ -1,4 +1,5 @@
 import XjsModel.Proofs.RaTerm
+import XjsModel.Proofs.LexPrintAll
 import XjsModel.Props.TableObligations
 /-
   C03 — Printed code parses back to the tree it was printed from.
@@ -23,9 +24,17 @@ import XjsModel.Props.TableObligations
     stops on the last token.
   Tie to the code: the printer's and the parser's precedence tables are re-extracted from /repo on every run and
   compared by `decide` (TableObligations); `parenLeft … parenPostfix` are the comparisons of ast.go.
-  Decided by the correspondence run (PRINTT stream: programmatic trees, exhaustive parent/child pairs) and the
-  model-free re-parse oracle: that the BYTES the printer writes lex to `toks` (no token fusion: fixes ebb5d69,
-  aca1392), pretty mode (incl. `WithSemi(false)`), trees outside `wf`.
+  Proved here too (`LP.compact_text_lexes`, `Proofs/LexPrint*.lean`): the BYTES the compact printer writes for such a tree
+  lex to exactly `toks` (type and literal of every token, then end of input) — no token fusion (the class of the
+  repaired defects ebb5d69, aca1392), for every tree whose tokens are lexically sane (`LP.saneB`: operators, delimiters
+  and keywords carry their spelling, identifiers are identifiers, number / string / backtick literals re-lex as
+  themselves — decidable sufficient conditions: `numOk_decimal`, `strOk_plain`, `rawOk_plain`; the property name of a
+  member access does not start with a digit). The writer invariant `LP.WInv` carries a FOLLOW predicate (what may stand
+  behind the text written so far without being drawn into its last token) and the fact that a sign which the predicate
+  rejects is the last byte written, which is what `separateSigns` tests.
+  Not proved: that positions / after-newline flags of the re-lexed tokens do not matter to the parser (the two
+  theorems meet at the token keys); pretty mode (incl. `WithSemi(false)`), trees outside `wf`. Those are decided by the
+  correspondence run (PRINTT stream: programmatic trees, exhaustive parent/child pairs) and the model-free re-parse oracle.
   Known findings there: stmt-start-object-or-function, dangling-else, printer-paren-function-indent, trim-in-literal.
 -/
 namespace Xjs.C03
@@ -54,6 +63,36 @@ theorem printed_program_parses_back (cfg : PCfg) (hc : BaseCfg cfg) (prog : SSLi
     (hterm : prog.term = true) (eofTok : Token) (he : eofTok.type = .eof) :
     ∃ r, parseProgram cfg (prog.toks ++ [eofTok]) = some r ∧ r.prog = prog.tree ∧ r.errors = [] ∧ r.hasErr = false :=
   printed_program_round_trip hc prog hw hterm eofTok he
+
+/-- PRINT → LEX: the text the compiler emits in compact mode (any indent / semicolon setting, with or without a source
+    map) for a well-formed program tree with lexically sane tokens is read by the lexer as exactly the printed token
+    sequence `toks` — the same type and literal, token by token — followed by end of input -/
+theorem compact_text_lexes_to_printed_tokens (ccfg : CompCfg) (hc : ccfg.pretty = false) (prog : SSList) (hw : prog.wf = true)
+    (hterm : prog.term = true) (hs : LP.saneB prog) :
+    (lexAll (compile ccfg prog.tree).code).map LP.keyOf = prog.toks.map LP.keyOf ++ [(.eof, [])] :=
+  LP.compact_text_lexes ccfg hc prog hw hterm hs
+
+/-- PRINT → LEX for one expression in any context: whatever was written before (`WInv`: compact mode, nothing pending,
+    the text so far lexes to `ks` in front of anything the follow predicate `fc` admits, and `fc` admits everything an
+    expression can start with), the text of the expression adds exactly its tokens, and anything that may follow a
+    number may follow it -/
+theorem expression_text_lexes (s : SE) (hw : s.wf = true) (hterm : s.term = true) (hs : LP.saneE s) (cw : CW) (ks : List LP.Key)
+    (fc : Bytes → Bool) (h : LP.WInv cw ks fc) (hst : LP.StartOK fc) :
+    ∃ fc', LP.WInv (writeExpr s.tree cw) (ks ++ s.toks.map LP.keyOf) fc' ∧ LP.EndOK fc' :=
+  LP.lexE s hw hterm hs h hst
+
+/-- the sign-separation rule: in front of a prefix `-`, `--`, `++` the writer puts a blank exactly when the byte
+    written last is the same sign; afterwards the operator can be written without fusing with what precedes it -/
+theorem separate_signs_is_enough (cw : CW) (ks : List LP.Key) (fc : Bytes → Bool) (h : LP.WInv cw ks fc) (hst : LP.StartOK fc)
+    (c : Nat) (w : Bytes) (hc : c = 43 ∨ c = 45) :
+    ∃ fc1, LP.WInv (cw.separateSigns (c :: w)) ks fc1 ∧ (∀ r, fc1 (c :: r) = true) ∧ LP.StartOK fc1 :=
+  LP.sep_lex h hst c w hc
+
+/-- sufficient, decidable conditions for the literal hypotheses -/
+theorem literal_sanity_conditions :
+    (∀ w, LP.decimalLit w = true → LP.numOk w .int) ∧ (∀ v, LP.plainStr v = true → LP.strOk v) ∧
+    (∀ v, LP.plainRaw v = true → LP.rawOk v) :=
+  ⟨LP.numOk_decimal, LP.strOk_plain, LP.rawOk_plain⟩
 
 /-- the modes the theorems cover: the four combinations of strict / tolerant and smart semicolons -/
 theorem all_modes_are_base (tolerant smart : Bool) : BaseCfg { tolerant := tolerant, smart := smart } :=
@@ -112,8 +151,32 @@ example : prog.toks.map (·.type) = [.function, .ident, .lparen, .ident, .rparen
     .return_, .ident, .semicolon, .else_, .lbrace, .let_, .ident, .assign, .lbracket, .ident, .rbracket, .semicolon, .rbrace,
     .rbrace, .ident, .lparen, .int, .rparen, .semicolon] := by decide
 
+/-! Non-vacuity of the byte-level theorem: `let x = 1; x = x - -x;` with properly spelled tokens -/
+private def kw (ty : TokType) : Token := tk ty (LP.canon ty)
+private def xT : Token := tk .ident [120]
+private def prog2 : SSList :=
+  .cons (.letS (kw .let_) xT (.atom (tk .int [49])) true)
+  (.cons (.exprS (.asg (kw .assign) (.atom xT) (.bin (kw .minus) (.atom xT) (.un (kw .minus) (.atom xT)))) true) .nil)
+example : prog2.wf = true ∧ prog2.term = true := by decide
+example : LP.saneB prog2 := by
+  have hx : LP.tokOk xT := by show LP.identOk [120] = true; decide
+  have h1 : LP.tokOk (tk .int [49]) := LP.numOk_decimal [49] (by decide)
+  have hk : ∀ ty, LP.canon ty ≠ [] → ty ≠ .ident → ty ≠ .int → ty ≠ .float → ty ≠ .string → ty ≠ .rawString → LP.tokOk (kw ty) := by
+    intro ty hc _ _ _ _ _
+    cases ty <;> first | exact absurd rfl hc | contradiction | exact ⟨hc, rfl⟩
+  refine ⟨⟨hk _ (by decide) (by decide) (by decide) (by decide) (by decide) (by decide), hx, h1⟩,
+    ⟨hk _ (by decide) (by decide) (by decide) (by decide) (by decide) (by decide), hx,
+      hk _ (by decide) (by decide) (by decide) (by decide) (by decide) (by decide), hx,
+      hk _ (by decide) (by decide) (by decide) (by decide) (by decide) (by decide), hx⟩, trivial⟩
+/-- the text is `let x=1;x=x- -x;` (the blank keeps the two signs apart) -/
+example : (compile {} prog2.tree).code = [108, 101, 116, 32, 120, 61, 49, 59, 120, 61, 120, 45, 32, 45, 120, 59] := by decide +kernel
+
 end Xjs.C03
 
+#print axioms Xjs.C03.compact_text_lexes_to_printed_tokens
+#print axioms Xjs.C03.expression_text_lexes
+#print axioms Xjs.C03.separate_signs_is_enough
+#print axioms Xjs.C03.literal_sanity_conditions
 #print axioms Xjs.C03.printed_tokens_parse_back
 #print axioms Xjs.C03.printed_statement_parses_back
 #print axioms Xjs.C03.printed_program_parses_back
